@@ -1,8 +1,20 @@
+import re
 from .config import Config
 from .abbreviation.convert import AbbreviationAttribute, AbbreviationNode
 
 expression_start = '{'
 expression_end = '}'
+re_newline = re.compile(r'\r\n|\r|\n')
+
+def split_lines(text: str):
+    """
+    Splits given text by lines like `str.splitlines()` does, but at `\\r\\n`, `\\r`
+    and `\\n` only: any other Unicode separator is a regular character of the text
+    """
+    lines = re_newline.split(text)
+    if lines[-1] == '':
+        lines.pop()
+    return lines
 
 class OutputStream:
     __slots__ = ('options', '_value', 'level', 'offset', 'line', 'column')
@@ -37,7 +49,7 @@ class OutputStream:
         # use `push_newline()` to maintain proper line/column state
         first = True
 
-        for line in value.splitlines():
+        for line in split_lines(value):
             if not first: self.push_newline(True)
             first = False
             self.push(line)
